@@ -153,6 +153,38 @@ fn main() {
                     Err(e) => format!("err {}", e),
                 }
             }
+            // native values of std / library types whose CandidType impls are hand-written in impls.rs
+            "te" => {
+                use std::collections::{BTreeMap, BTreeSet, BinaryHeap, HashMap, HashSet, LinkedList, VecDeque};
+                use std::time::{Duration, UNIX_EPOCH};
+                let k: usize = p[1].parse().unwrap();
+                let r = match k {
+                    0 => candid::encode_one((1u8, "a".to_string(), true)),
+                    1 => candid::encode_one(5usize),
+                    2 => candid::encode_one(-5isize),
+                    3 => candid::encode_one(Duration::new(5, 7)),
+                    4 => candid::encode_one(UNIX_EPOCH + Duration::new(5, 7)),
+                    5 => candid::encode_one(BTreeMap::from([("a".to_string(), 1u8), ("b".to_string(), 2u8)])),
+                    6 => candid::encode_one(BTreeSet::from([-1i8, 3i8])),
+                    7 => candid::encode_one([1u16, 2, 3]),
+                    8 => candid::encode_one(Some(None::<Option<u8>>)),
+                    9 => candid::encode_one(Ok::<u8, String>(7)),
+                    10 => candid::encode_one((Box::new("x".to_string()), std::rc::Rc::new(3u8), std::sync::Arc::new("y".to_string()), std::borrow::Cow::Borrowed("z"))),
+                    11 => candid::encode_one((std::cell::RefCell::new(5u8), std::cell::Cell::new(6u16), std::cmp::Reverse(7u32))),
+                    12 => candid::encode_one(std::marker::PhantomData::<u8>),
+                    13 => candid::encode_one(()),
+                    14 => candid::encode_one((1.5f32, -2.0f64)),
+                    15 => candid::encode_one(std::path::PathBuf::from("/a/b")),
+                    16 => candid::encode_one((VecDeque::from([1u8, 2]), LinkedList::from([3u8]), BinaryHeap::from([4u8]), HashSet::<u8>::from([5u8]), HashMap::<u8, u8>::from([(6u8, 7u8)]))),
+                    17 => candid::encode_one((0u8, 1u8, 2u8, 3u8, 4u8, 5u8, 6u8, 7u8, 8u8, 9u8, 10u8, 11u8, 12u8, 13u8, 14u8, 15u8)),
+                    18 => candid::encode_one((i128::MIN, u128::MAX, i128::MAX)),
+                    19 => candid::encode_one((Err::<u8, String>("e".to_string()), "s", &5u8, &mut 6u8, Some(Box::new(7u8)))),
+                    20 => candid::encode_one(vec![Some(vec![(1u8, None::<u8>)]), None]),
+                    21 => candid::encode_one((candid::Reserved, Some(candid::Reserved), candid::Principal::from_slice(&[1, 2]), candid::Nat::from(300u32), candid::Int::from(-300))),
+                    _ => return "bad".to_string(),
+                };
+                match r { Ok(b) => format!("ok {}", hexe(&b)), Err(e) => format!("err {}", e) }
+            }
             "tn" => {
                 let n: usize = p[2].parse().unwrap();
                 let r = match p[1].as_str() {
